@@ -333,8 +333,9 @@ Definition last_ev (t : N) (log : list ev) : option ev := find (fun e => ev_task
 
 Definition optN_eqb (a b : option N) : bool :=
   match a, b with Some x, Some y => x =? y | None, None => true | _, _ => false end.
+(* the failure counter is reported but not compared: the property does not speak about it *)
 Definition orow_eqb (a b : orow) : bool :=
-  (o_id a =? o_id b) && status_eqb (o_st a) (o_st b) && (o_fail a =? o_fail b) && optN_eqb (o_age a) (o_age b).
+  (o_id a =? o_id b) && status_eqb (o_st a) (o_st b) && optN_eqb (o_age a) (o_age b).
 Definition count (t : N) (l : list N) : N := len (filter (N.eqb t) l).
 (* equal as multisets (row order and worker order are not observable) *)
 Definition rows_eqb (a b : list orow) : bool :=
